@@ -594,6 +594,10 @@ func (x *Exec) builtinAppend(st *State, site ssa.Instruction, c *ssa.CallCommon,
 	}
 	// prefix copy into the fresh backing
 	x.copyRange(st, elem, nb, "0", s.B, s.O, s.L, true)
+	var memBefore string
+	if isScalar(elem) {
+		memBefore = x.hget(st.H, x.memKey(elem))
+	}
 	rb, ro, rc := x.freshInt("app.b"), x.freshInt("app.o"), x.freshInt("app.c")
 	st.assume(ite(fits, and(eq(rb, s.B), eq(ro, s.O), eq(rc, s.C)), and(eq(rb, nb), eq(ro, "0"), eq(rc, nc))))
 	if isIntLiteral(tl) && len(tl) == 1 {
@@ -605,9 +609,22 @@ func (x *Exec) builtinAppend(st *State, site ssa.Instruction, c *ssa.CallCommon,
 		for j := 0; j < n; j++ {
 			x.storeElem(st, elem, rb, add(add(ro, s.L), intLit(int64(j))), vs[j])
 		}
+		if isScalar(elem) {
+			// redundant ground facts: they put the select terms of the new elements on the table for E-matching
+			mk := x.memKey(elem)
+			for j := 0; j < n; j++ {
+				st.assume(eq(sel(sel(x.hget(st.H, mk), rb), add(add(ro, s.L), intLit(int64(j)))), x.scalar(vs[j])))
+			}
+		}
 	} else {
 		t := args[1].(SL)
 		x.copyRange(st, elem, rb, add(ro, s.L), t.B, t.O, tl, false)
+	}
+	if isScalar(elem) {
+		// prefix lemma with forward pattern: the old elements are the first elements of the result
+		after := x.hget(st.H, x.memKey(elem))
+		st.assume(fmt.Sprintf("(forall ((k!a Int)) (! (=> (and (<= %s k!a) (< k!a (+ %s %s))) (= (select (select %s %s) (+ %s (- k!a %s))) (select (select %s %s) k!a))) :pattern ((select (select %s %s) k!a))))",
+			s.O, s.O, s.L, after, rb, ro, s.O, memBefore, s.B, memBefore, s.B))
 	}
 	return SL{rb, ro, newLen, rc, st0}
 }
@@ -648,7 +665,7 @@ func (x *Exec) copyRange(st *State, elem types.Type, dB, dOff, sB, sOff, n strin
 		dst := sel(cur, dB)
 		st.assume(fmt.Sprintf("(forall ((j Int)) (! (= (select %s j) (ite (and (<= %s j) (< j (+ %s %s))) (select %s (+ (- j %s) %s)) (select %s j))) :pattern ((select %s j))))",
 			na, dOff, dOff, n, src, dOff, sOff, dst, na))
-		x.hset(st, mk, store(cur, dB, na))
+		x.hsetMem(st, mk, dB, "", na)
 	}
 }
 
@@ -692,7 +709,7 @@ func (x *Exec) builtinCopy(st *State, c *ssa.CallCommon, args []Val) Val {
 			x.reg.declare(na, "(Array Int Int)")
 			st.assume(fmt.Sprintf("(forall ((j Int)) (! (= (select %s j) (ite (and (<= %s j) (< j (+ %s %s))) (strat %s (- j %s)) (select %s j))) :pattern ((select %s j))))",
 				na, d.O, d.O, n, s.T, d.O, sel(cur, d.B), na))
-			x.hset(st, mk, store(cur, d.B, na))
+			x.hsetMem(st, mk, d.B, "", na)
 			return TV{n, intT}
 		}
 		if s.T == "0" {
